@@ -69,9 +69,9 @@ def run(tier, seed):
                 sg = np.einsum("pi,pi->i", np.asarray(refj), np.asarray(fresh))
                 if np.any(sg < 0): flips.append(j)
             ks += flips[:: max(1, len(flips) // 3)][:3]
-        ks = sorted(set(ks)); hopset, flipset, minorset = set(hopk), set(flips), set(minor)
+        ks = sorted(set(ks + [nfull - 1])); hopset, flipset, minorset = set(hopk), set(flips), set(minor)      # nfull-1: restart from the complete log (a limit is already met: nothing may be appended)
         for k in ks:
-            if k < 1 or k >= nfull - 1: continue
+            if k < 1 or k > nfull - 1: continue
             backend = rng.choice(["memory", "yaml", "yaml"]); pitch = rng.randint(1, 9)
             d = os.path.join(tmproot, "r%d_%d" % (it, k)); os.makedirs(d)
             tracer = InMemoryTrace() if backend == "memory" else YAMLTrace(base_name="ta", location=d, log_pitch=pitch)
